@@ -1,4 +1,7 @@
 import SqlgrepModel.Lemmas.ValueOrder
+import SqlgrepModel.Lemmas.FloatOrder
+import SqlgrepModel.Lemmas.NumericOrder
+import SqlgrepModel.Lemmas.UniqueValues
 /-
 C16 — value equality, ordering and hashing agree and form a total order.
 
@@ -77,6 +80,248 @@ example : beq negZero posZero = true ∧ hashRepr negZero = hashRepr posZero := 
 -- non-vacuity of the transitivity hypotheses on a non-trivial triple
 example : cmp negInf negZero = .lt ∧ cmp negZero one = .lt ∧ cmp negInf one = .lt := by decide
 example : cmpList [.int 1, .null] [.int 1, .text [97]] = .lt := by decide
+
+/-! ## NEW (review gap 1): REAL values compare by numeric value — proved, no longer trusted
+
+The exact value of a finite REAL bit pattern is the dyadic number `F64.value n = (±mantissa, exponent)`
+(`Lemmas/FloatOrder.lean`; mantissa/exponent from `F64.mantExp`, the decomposition the model also uses
+for `cmpIntReal` and `{:.2}`), ordered by `Dy.cmp` / `<` / `Dy.Eqv` (cross-scaling with powers of two;
+`Dy.cmp_eq_scale`: independent of the common exponent, so it is the order of the numbers `m·2^e`).
+The theorems hold for every `Nat` pattern (only sign, exponent and fraction fields are looked at). -/
+
+/-- `F64.cmp` on finite patterns IS the comparison of the exact values. -/
+theorem real_cmp_is_value_cmp (a b : Nat) (ha : F64.isFinite a = true) (hb : F64.isFinite b = true) :
+    cmp (.real a) (.real b) = Dy.cmp (F64.value a) (F64.value b) := by
+  simp only [cmp]; exact F64.cmp_eq_value_cmp a b ha hb
+
+/-- a REAL is smaller in the order exactly when its value is smaller -/
+theorem real_lt_iff_value_lt (a b : Nat) (ha : F64.isFinite a = true) (hb : F64.isFinite b = true) :
+    cmp (.real a) (.real b) = .lt ↔ F64.value a < F64.value b := by
+  rw [real_cmp_is_value_cmp a b ha hb]; exact Iff.rfl
+
+/-- two REALs are equal in the order exactly when their values are equal -/
+theorem real_eq_iff_value_eq (a b : Nat) (ha : F64.isFinite a = true) (hb : F64.isFinite b = true) :
+    cmp (.real a) (.real b) = .eq ↔ Dy.Eqv (F64.value a) (F64.value b) := by
+  rw [real_cmp_is_value_cmp a b ha hb]; exact Iff.rfl
+
+/-- ... so `-0.0 = +0.0` and no other two distinct (non-NaN) bit patterns are equal -/
+theorem real_eq_iff_same_bits_or_zeros (a b : Nat) (ha : a < 2 ^ 64) (hb : b < 2 ^ 64)
+    (na : F64.isNaN a = false) (nb : F64.isNaN b = false) :
+    cmp (.real a) (.real b) = .eq ↔ (a = b ∨ (F64.mag a = 0 ∧ F64.mag b = 0)) := by
+  simp only [cmp]
+  rw [F64.cmp_eq_iff_bits a b na nb]
+  unfold F64.mag F64.signBit
+  have qa : a / 2 ^ 63 = 0 ∨ a / 2 ^ 63 = 1 := by omega
+  have qb : b / 2 ^ 63 = 0 ∨ b / 2 ^ 63 = 1 := by omega
+  rcases qa with qa | qa <;> rcases qb with qb | qb <;> simp only [qa, qb] <;> simp <;> omega
+
+/-- `-inf` is below every finite REAL and `+inf`; `+inf` is above every finite REAL -/
+theorem real_infinities (i j a : Nat) (hi : F64.isInf i = true) (si : F64.signBit i = true)
+    (hj : F64.isInf j = true) (sj : F64.signBit j = false) (ha : F64.isFinite a = true) :
+    cmp (.real i) (.real a) = .lt ∧ cmp (.real a) (.real j) = .lt ∧ cmp (.real i) (.real j) = .lt := by
+  simp only [cmp]
+  exact ⟨F64.neg_inf_lt_finite i a hi si ha, F64.finite_lt_pos_inf j a hj sj ha, F64.neg_inf_lt_pos_inf i j hi si hj sj⟩
+
+/-- NaN (what `impl Ord for Float` does after the REAL total-order repair: `partial_cmp`, and for
+unordered operands `is_nan().cmp(is_nan())`): any NaN pattern equals any NaN pattern (payload and
+sign are ignored) and is greater than every non-NaN REAL, `+inf` included. -/
+theorem real_nan (n m a : Nat) (hn : F64.isNaN n = true) (hm : F64.isNaN m = true) (ha : F64.isNaN a = false) :
+    cmp (.real n) (.real m) = .eq ∧ cmp (.real a) (.real n) = .lt ∧ cmp (.real n) (.real a) = .gt := by
+  simp only [cmp]
+  exact ⟨F64.cmp_nan_nan n m hn hm, F64.cmp_lt_nan a n ha hn, F64.cmp_nan_gt n a hn ha⟩
+
+/-- the value order used above is a genuine strict total order on numbers, not on representations -/
+theorem value_order_laws (a b c : Dy) :
+    ((a < b ∧ ¬ Dy.Eqv a b ∧ ¬ b < a) ∨ (¬ a < b ∧ Dy.Eqv a b ∧ ¬ b < a) ∨ (¬ a < b ∧ ¬ Dy.Eqv a b ∧ b < a)) ∧
+    (a < b → b < c → a < c) ∧ (Dy.Eqv a b → Dy.Eqv b c → Dy.Eqv a c) :=
+  ⟨Dy.trichotomy a b, Dy.lt_trans, Dy.eqv_trans⟩
+
+/-- ... and it does not depend on how a number is written: `(m·2^j)·2^e` and `m·2^(e+j)` are equal,
+and integers embed with their own order -/
+theorem value_representation_independent (m e : Int) (j : Nat) (x y : Int) :
+    Dy.Eqv ⟨m * 2 ^ j, e⟩ ⟨m, e + j⟩ ∧ (Dy.ofInt x < Dy.ofInt y ↔ x < y) ∧ (Dy.Eqv (Dy.ofInt x) (Dy.ofInt y) ↔ x = y) :=
+  ⟨Dy.eqv_shift m e j, Dy.ofInt_lt x y, Dy.ofInt_eqv x y⟩
+
+-- non-vacuity and concrete values: 1.5 = 3·2^51 · 2^-52, -0.0, smallest subnormal 2^-1074, largest subnormal, 2^53
+example : F64.value 0x3ff8000000000000 = ⟨0x18000000000000, -52⟩ := by decide
+example : Dy.Eqv (F64.value 0x3ff8000000000000) ⟨3, -1⟩ := by decide
+example : F64.value 0x8000000000000000 = ⟨0, -1074⟩ ∧ Dy.Eqv (F64.value 0x8000000000000000) (F64.value 0) := by decide
+example : F64.value 1 = ⟨1, -1074⟩ ∧ F64.value 0x000fffffffffffff = ⟨2 ^ 52 - 1, -1074⟩ := by decide
+example : Dy.Eqv (F64.value 0x4340000000000000) (Dy.ofInt (2 ^ 53)) := by decide
+example : F64.isFinite 0x3ff8000000000000 = true ∧ F64.isFinite 0x8000000000000001 = true ∧
+    cmp (.real 0x8000000000000001) (.real 0x3ff8000000000000) = .lt ∧
+    F64.value 0x8000000000000001 < F64.value 0x3ff8000000000000 := by decide
+-- largest subnormal < smallest normal; largest finite < +inf
+example : cmp (.real 0x000fffffffffffff) (.real 0x0010000000000000) = .lt ∧
+    F64.value 0x000fffffffffffff < F64.value 0x0010000000000000 := by decide
+example : F64.isInf 0xfff0000000000000 = true ∧ F64.signBit 0xfff0000000000000 = true ∧
+    F64.isInf 0x7ff0000000000000 = true ∧ F64.signBit 0x7ff0000000000000 = false ∧
+    F64.isFinite 0x7fefffffffffffff = true := by decide
+example : F64.isNaN 0x7ff8000000000000 = true ∧ F64.isNaN 0xfff0000000000001 = true ∧ F64.isNaN 0x7ff0000000000000 = false := by decide
+example : F64.isNaN 0x8000000000000000 = false ∧ (0x8000000000000000 : Nat) < 2 ^ 64 ∧ F64.mag 0x8000000000000000 = 0 := by decide
+
+/-! ## NEW (review gap 2): INT × REAL — the WHERE order (`compareValues`, used by `Compare` and `IN`)
+
+`compareValues` is `Value.cmp` except for an INT against a REAL, which go through `F64.cmpIntReal`
+(`compare_int_float`). `numValue v` is the exact value of a finite number (`Dy.ofInt i` / `F64.value n`);
+`numClass`/`numUnits` (Lemmas/NumericOrder.lean) are the order key of any number: class −1 (−inf), 0 (INT,
+finite REAL), 1 (+inf), 2 (NaN), then the exact value in units of 2^-1074. INT is any `Int` (no i64 bound needed). -/
+
+/-- **Numbers compare by numeric value**: any mix of INT and finite REAL is ordered by `compareValues`
+exactly as the exact values are; in particular an INT and a REAL of equal value are equal (not ordered by
+type), and `2^53 + 1 > 2^53 as REAL` although `(2^53+1) as f64 == 2^53`. -/
+theorem numbers_compare_by_value (a b : Value) (ha : isFiniteNumber a = true) (hb : isFiniteNumber b = true) :
+    compareValues a b = Dy.cmp (numValue a) (numValue b) ∧
+    (compareValues a b = .lt ↔ numValue a < numValue b) ∧
+    (compareValues a b = .eq ↔ Dy.Eqv (numValue a) (numValue b)) ∧
+    (compareValues a b = .gt ↔ numValue b < numValue a) := by
+  have h := compareValues_eq_value_cmp a b ha hb
+  refine ⟨h, by rw [h]; exact Iff.rfl, by rw [h]; exact Iff.rfl, ?_⟩
+  rw [h, Dy.lt_def, Dy.cmp_swap (numValue a) (numValue b)]
+  cases Dy.cmp (numValue a) (numValue b) <;> simp [Ordering.swap]
+
+/-- INT = REAL exactly when the REAL is finite and its value is that integer -/
+theorem int_eq_real_iff (i : Int) (b : Nat) :
+    compareValues (.int i) (.real b) = .eq ↔ (F64.isFinite b = true ∧ Dy.Eqv (F64.value b) (Dy.ofInt i)) := by
+  rcases F64.classify b with ⟨fb, ib, nb⟩ | ⟨fb, ib, nb⟩ | ⟨fb, ib, nb⟩
+  · have h := compareValues_eq_value_cmp (.int i) (.real b) rfl fb
+    rw [h]; simp only [fb, true_and, numValue]
+    exact ⟨Dy.eqv_symm, Dy.eqv_symm⟩
+  · simp only [compareValues, F64.cmpIntReal_inf i b ib, fb]
+    cases F64.signBit b <;> simp
+  · simp [compareValues, F64.cmpIntReal_nan i b nb, fb]
+
+/-- non-finite REAL operands against an INT: `-inf` is below and `+inf` above every INT; NaN is ABOVE
+every INT (`compare_int_float` answers `Less` for a NaN right operand, and the REAL-on-the-left case is its
+mirror image), consistently with NaN being the greatest REAL in the derived order. -/
+theorem int_vs_nonfinite_real (i : Int) (b : Nat) :
+    (F64.isNaN b = true → compareValues (.int i) (.real b) = .lt ∧ compareValues (.real b) (.int i) = .gt) ∧
+    (F64.isInf b = true → F64.signBit b = false →
+      compareValues (.int i) (.real b) = .lt ∧ compareValues (.real b) (.int i) = .gt) ∧
+    (F64.isInf b = true → F64.signBit b = true →
+      compareValues (.int i) (.real b) = .gt ∧ compareValues (.real b) (.int i) = .lt) := by
+  refine ⟨fun h => ?_, fun h s => ?_, fun h s => ?_⟩
+  · simp [compareValues, F64.cmpIntReal_nan i b h, Ordering.swap]
+  · simp [compareValues, F64.cmpIntReal_inf i b h, s, Ordering.swap]
+  · simp [compareValues, F64.cmpIntReal_inf i b h, s, Ordering.swap]
+
+/-- **The WHERE order is a total preorder on numbers** — all INTs and all REAL bit patterns (±0, subnormals,
+±inf and NaN included, NaN being one class above everything), across all eight INT/REAL mixes of a triple:
+reflexive; `b ? a` is the mirror image of `a ? b` (so exactly one of <, =, > holds and it is antisymmetric up
+to numeric equality); `<` is transitive; `=` is a congruence (`a = b` ⇒ `a ? c` is `b ? c`, `c ? a` is `c ? b`);
+`≤` is transitive. It is the order of the integer key `(numClass, numUnits)`. -/
+theorem where_order_is_total_on_numbers (a b c : Value)
+    (ha : isNumber a = true) (hb : isNumber b = true) (hc : isNumber c = true) :
+    compareValues a a = .eq ∧
+    compareValues b a = (compareValues a b).swap ∧
+    (compareValues a b = .lt → compareValues b c = .lt → compareValues a c = .lt) ∧
+    (compareValues a b = .eq → compareValues a c = compareValues b c) ∧
+    (compareValues b c = .eq → compareValues a c = compareValues a b) ∧
+    (compareValues a b ≠ .gt → compareValues b c ≠ .gt → compareValues a c ≠ .gt) ∧
+    compareValues a b = (compare (numClass a) (numClass b)).then (compare (numUnits a) (numUnits b)) := by
+  have t := compareValues_T a b c ha hb hc
+  refine ⟨compareValues_refl a, compareValues_swap a b, t.1, t.2.1, t.2.2, ?_, compareValues_eq_key a b ha hb⟩
+  unfold T at t
+  cases h : compareValues a b <;> cases h' : compareValues b c <;> simp_all
+
+/-- **The WHERE order agrees with the GROUP BY / MIN / MAX / array_unique order on operands of one type**
+(and on every other pair that is not an INT/REAL mix): `compareValues` IS `Value.cmp` there, so all laws
+above (`trichotomy`, `lt_trans`, …) are laws of WHERE comparisons of same-type operands. (For an INT against
+a REAL the two orders differ: finding D45 below.) -/
+theorem where_order_agrees_with_group_order_same_type (a b : Value)
+    (h : a.valueType = b.valueType ∨ a.rank = b.rank) : compareValues a b = cmp a b := by
+  apply compareValues_eq_cmp
+  rintro (⟨i, n, rfl, rfl⟩ | ⟨i, n, rfl, rfl⟩) <;> simp [valueType, rank] at h
+
+/-- the only pairs on which the two orders can differ are INT/REAL mixes -/
+theorem where_order_differs_only_on_int_real (a b : Value)
+    (h : ¬ ((∃ i n, a = .int i ∧ b = .real n) ∨ (∃ i n, a = .real n ∧ b = .int i))) :
+    compareValues a b = cmp a b := compareValues_eq_cmp a b h
+
+-- (comparing an INT with a subnormal/zero scales by 2^1074: let `decide` evaluate that power)
+set_option exponentiation.threshold 2200
+-- non-vacuity: 2^53+1 as INT vs 2^53 as REAL (0x4340000000000000); 2 vs 1.5; 0 vs -0.0; mixes in a chain
+example : isFiniteNumber (.int (2 ^ 53 + 1)) = true ∧ isFiniteNumber (.real 0x4340000000000000) = true ∧
+    compareValues (.int (2 ^ 53 + 1)) (.real 0x4340000000000000) = .gt ∧
+    compareValues (.int (2 ^ 53)) (.real 0x4340000000000000) = .eq ∧
+    numValue (.real 0x4340000000000000) < numValue (.int (2 ^ 53 + 1)) := by decide
+example : compareValues (.int 2) (.real 0x3ff8000000000000) = .gt ∧ compareValues (.real 0x3ff8000000000000) (.int 2) = .lt ∧
+    compareValues (.int 0) (.real 0x8000000000000000) = .eq := by decide
+example : F64.isFinite 0x4340000000000000 = true ∧ Dy.Eqv (F64.value 0x4340000000000000) (Dy.ofInt (2 ^ 53)) := by decide
+-- a (REAL, INT, REAL) triple for transitivity: 1.5 < 2 < 2.5 (0x4004000000000000)
+example : compareValues (.real 0x3ff8000000000000) (.int 2) = .lt ∧ compareValues (.int 2) (.real 0x4004000000000000) = .lt ∧
+    compareValues (.real 0x3ff8000000000000) (.real 0x4004000000000000) = .lt := by decide
+-- an (INT, REAL, INT) triple with equality: 3 = 3.0 (0x4008000000000000) = 3
+example : compareValues (.int 3) (.real 0x4008000000000000) = .eq ∧ compareValues (.real 0x4008000000000000) (.int 3) = .eq := by decide
+example : F64.isNaN 0x7ff8000000000000 = true ∧ compareValues (.int (2 ^ 63 - 1)) (.real 0x7ff8000000000000) = .lt ∧
+    compareValues (.int (-(2 ^ 63))) (.real 0xfff0000000000000) = .gt := by decide
+example : (Value.int 1).valueType = (Value.int 2).valueType ∧ (Value.real 0).rank = (Value.real 1).rank := by decide
+example : isNumber (.real 0x7ff8000000000000) = true ∧ isNumber (.int (-5)) = true ∧ isNumber (.real 0xfff0000000000000) = true := by decide
+-- a pair that is not an INT/REAL mix although the types differ (the derived order compares the variant rank)
+example : compareValues (.text [97]) (.int 1) = cmp (.text [97]) (.int 1) := rfl
+
+/-! ## NEW (review gap 5): array_unique
+
+`uniqueValues xs` (Model/Eval.lean: fold of `insertUnique` into an ascending list = `BTreeSet::from_iter(xs)
+.into_iter()`; an insert of a value equal to a member keeps the member) — the function `array_unique` executes. It
+uses the derived order `Value.cmp`; its equality `cmp = Equal` is `==` (`cmp_eq_iff_eq`). -/
+
+/-- **what array_unique returns**: the result is strictly ascending in the order (SORTED order, not first-occurrence
+order; hence no two results are equal), and its members are exactly the FIRST occurrences of the equality classes
+of the input — `v` is returned iff `v` stands in `xs` at a position before which no value `==`-equal to `v` stands.
+So of `[0.0, -0.0]` the `0.0` is kept, of `[-0.0, 0.0]` the `-0.0`. A strictly ascending list is determined by its
+members, so this characterises the result completely. -/
+theorem array_unique_characterisation (xs : List Value) :
+    (uniqueValues xs).Pairwise (fun a b => cmp a b = .lt) ∧
+    ∀ v, v ∈ uniqueValues xs ↔ ∃ pre post, xs = pre ++ v :: post ∧ ∀ u ∈ pre, beq u v = false := by
+  refine ⟨Unique.sorted_uniqueValues xs, fun v => ?_⟩
+  rw [Unique.mem_uniqueValues_iff]
+  unfold Unique.FirstOcc
+  constructor
+  · rintro ⟨pre, post, h, hp⟩
+    refine ⟨pre, post, h, fun u hu => ?_⟩
+    have := hp u hu
+    rw [Ne, cmp_eq_iff_beq] at this
+    simpa using this
+  · rintro ⟨pre, post, h, hp⟩
+    refine ⟨pre, post, h, fun u hu => ?_⟩
+    rw [Ne, cmp_eq_iff_beq, hp u hu]; simp
+
+/-- **any two values deduplicated are equal, and only equal values are**: every input value is represented in the
+result by exactly one member, which is `==`-equal to it (the earliest equal input value); consequently two input
+values share their representative iff they are equal — as for groups (`grouped_are_equal`, here on one-element
+keys: `cmpList [u] [x] = Equal`). -/
+theorem array_unique_merges_exactly_equal_values (xs : List Value) (x : Value) (hx : x ∈ xs) :
+    (∃ u ∈ uniqueValues xs, beq u x = true ∧ cmpList [u] [x] = .eq) ∧
+    (∀ u w, u ∈ uniqueValues xs → w ∈ uniqueValues xs → beq u x = true → beq w x = true → u = w) ∧
+    (∀ y u, y ∈ xs → u ∈ uniqueValues xs → beq u x = true → (beq u y = true ↔ beq x y = true)) := by
+  refine ⟨?_, ?_, ?_⟩
+  · obtain ⟨u, hu, hf⟩ := Unique.exists_firstOcc xs x hx
+    refine ⟨u, (Unique.mem_uniqueValues_iff xs u).2 hf, (cmp_eq_iff_beq u x).1 hu, ?_⟩
+    simp [cmpList, hu, Ordering.then]
+  · intro u w hu hw hux hwx
+    rw [← cmp_eq_iff_beq] at hux hwx
+    have huw : cmp u w = .eq := Unique.cmp_eq_trans hux (Unique.cmp_eq_symm hwx)
+    rcases Unique.pairwise_mem (Unique.sorted_uniqueValues xs) hu hw with h | h | h
+    · exact h
+    · rw [huw] at h; exact absurd h (by decide)
+    · rw [Unique.cmp_eq_symm huw] at h; exact absurd h (by decide)
+  · intro y u _ _ hux
+    rw [← cmp_eq_iff_beq] at hux ⊢
+    rw [← cmp_eq_iff_beq, (cmp_T u x y).2.1 hux]
+
+/-- nothing is invented and nothing is lost: the result's members are input values, and it is empty only for an
+empty input -/
+theorem array_unique_members_are_inputs (xs : List Value) (v : Value) (h : v ∈ uniqueValues xs) : v ∈ xs := by
+  obtain ⟨pre, post, hx, _⟩ := (Unique.mem_uniqueValues_iff xs v).1 h
+  rw [hx]; simp
+
+-- non-vacuity: sorted output, first of equal values kept (-0.0 before 0.0; NaN payloads), INT/REAL not merged (D45)
+example : uniqueValues [.int 3, .int 1, .int 3, .int 2] = [.int 1, .int 2, .int 3] := rfl
+example : Value.int 3 ∈ [Value.int 3, .int 1, .int 3, .int 2] := List.mem_cons_self
+example : uniqueValues [negZero, posZero, one, posZero] = [negZero, one] ∧ uniqueValues [posZero, negZero] = [posZero] := ⟨rfl, rfl⟩
+example : uniqueValues [.real 0x7ff8000000000001, nan, one] = [one, .real 0x7ff8000000000001] := rfl
+example : uniqueValues [.text [98], .text [97], .text [98]] = [.text [97], .text [98]] := rfl
 
 /-- KNOWN FINDING D45 (kept as a kernel-checked witness): in the *derived* order, used for GROUP BY
 keys, MIN/MAX, PERCENTILE and array_unique, an INT and a REAL are ordered by their type, not by
